@@ -1,7 +1,7 @@
 (* C11 — proofs about the model: re-exports the parts; short proofs of statements of Properties.v. *)
 From Coq Require Import List NArith Bool Lia.
 From V.C11 Require Import Model.
-From V.C11 Require Export PBase PAlt PInv PIso PLedger.
+From V.C11 Require Export PBase PAlt PInv PIso PLedger PTimer.
 Import ListNotations.
 Open Scope N_scope.
 
@@ -86,3 +86,18 @@ Proof.
   - pose proof w_reject_check as W. rewrite E in W. discriminate.
 Qed.
 
+
+Lemma C11_stale_timer_cancels_newer_attempt_refuted_pf :
+  exists s1 s2 s3 ev cl,
+    exec cfg_wt init w_stale_pre = Some s1 /\ ps s1 0 = Some (Closed None) /\ timers s1 = [0] /\
+    exec cfg_wt s1 w_stale_post = Some s2 /\ waiting (ps s2 0) = true /\ timers s2 = [0; 0] /\
+    step cfg_wt s2 (Timer 0) = Some (s3, ev, cl) /\ ev = [UFail 0 E_REJECTED] /\ cl = [CForce 0] /\
+    timers s3 = [0].
+Proof.
+  pose proof stale_timer_cancels_newer_attempt as X.
+  destruct (exec cfg_wt init w_stale_pre) as [s1|] eqn:E1; [|discriminate X].
+  destruct (exec cfg_wt s1 w_stale_post) as [s2|] eqn:E2; [|discriminate X].
+  destruct (step cfg_wt s2 (Timer 0)) as [[[s3 ev] cl]|] eqn:E3; [|discriminate X].
+  injection X as X1 X2 X3 X4 X5 X6 X7 X8.
+  exists s1, s2, s3, ev, cl. subst. repeat split; auto.
+Qed.
